@@ -1,41 +1,29 @@
 (* Proofs/PatternRange.v -- C10: the objects the visitor produces (on admissible
-   trees whose floats print positionally) are printable and of the shape
-   `vexpr`; on such objects `unvisit` is defined.                            *)
+   trees) are printable and of the shape `vexpr`.                             *)
 From Coq Require Import NArith ZArith List String Bool Lia.
-From V Require Import Model.PatternSyntax Proofs.PatternNumbers Proofs.PatternLit Proofs.PatternPath
+From V Require Import Model.PatternSyntax Spec.PatternSpec Proofs.PatternR Proofs.PatternNumbers Proofs.PatternLit Proofs.PatternPath
   Proofs.PatternCmp Proofs.PatternObs Proofs.PatternEscape Proofs.PatternTokens Proofs.PatternMeaning
   Proofs.PatternUnvConst Proofs.PatternUnvPath Proofs.PatternUnvExpr.
 Import ListNotations.
 Open Scope N_scope.
 
-(* a float literal whose value repr() prints positionally (finding
-   C10-float-exponent-notation excludes the others) *)
-Definition lit_print (t : token) : bool :=
-  match tk t with
-  | KFloatPos | KFloatNeg => match py_float (tx t) with Some f => float_plain f | None => false end
-  | _ => true
-  end.
-
-Definition printable (c : pattern) : bool := forallb lit_print (yield c).
-
 (* ---- literals ---- *)
 
-Lemma sv_lit_ok : forall t, kind_in t primitive_kinds = true -> lit_sem t = true -> lit_print t = true ->
+Lemma sv_lit_ok : forall t, kind_in t primitive_kinds = true -> lit_sem t = true ->
   const_ok (sv_lit t) = true /\ const_canon (sv_lit t) = true.
 Proof.
-  intros t Hk Hs Hp. pose proof (visit_lit t Hk Hs) as V.
+  intros t Hk Hs. pose proof (visit_lit t Hk Hs) as V.
   unfold kind_in in Hk. apply andb_true_iff in Hk. destruct Hk as [Hk Hok].
-  destruct t as [k s]. unfold token_ok in Hok. unfold lit_sem in Hs. unfold lit_print in Hp. cbn [tk tx] in *.
-  destruct k; cbn in Hk; try discriminate; unfold visit_terminal in V; cbn [tk tx] in V.
+  destruct t as [k s]. unfold token_ok in Hok. unfold lit_sem in Hs. cbn [tk tx] in *.
+  destruct k; cbn in Hk; try discriminate; unfold PatternSyntax.visit_terminal in V; cbn [tk tx] in V.
   - destruct (py_int s); [|discriminate]. inversion V as [E]. split; reflexivity.
   - destruct (py_int s); [|discriminate]. inversion V as [E]. split; reflexivity.
   - destruct (py_float s) as [f|] eqn:Ef; [|discriminate]. inversion V as [E]. split; [|reflexivity].
-    cbn [const_ok]. rewrite Hp, andb_true_r. apply fnorm_b_spec. apply (py_float_norm s f Ef).
+    cbn [const_ok]. apply fnorm_b_spec. apply (py_float_norm s f Ef).
   - destruct (py_float s) as [f|] eqn:Ef; [|discriminate]. inversion V as [E]. split; [|reflexivity].
-    cbn [const_ok]. rewrite Hp, andb_true_r. apply fnorm_b_spec. apply (py_float_norm s f Ef).
-  - unfold mk_hex_from_tree in V. destruct (prefixed_body 104 s) as [b|]; [|discriminate].
-    destruct (negb (is_nil b) && hex_pairs b) eqn:C; [|discriminate]. inversion V as [E]. split; [|reflexivity].
-    cbn [const_ok]. apply andb_true_iff in C. destruct C as [C1 C2]. rewrite C1, C2. reflexivity.
+    cbn [const_ok]. apply fnorm_b_spec. apply (py_float_norm s f Ef).
+  - rewrite mk_hex_rep in V. destruct (prefixed_body 104 s) as [b|]; [|discriminate].
+    destruct (hex_pairs b) eqn:C; [|discriminate]. inversion V as [E]. split; [exact C|reflexivity].
   - unfold mk_binary_from_tree in V. destruct (prefixed_body 98 s) as [b|]; [|discriminate].
     destruct (b64_groups b) eqn:C; [|discriminate]. inversion V as [E]. split; [exact C|reflexivity].
   - destruct (string_ok_shape s Hok) as [body [Es L]]. subst s.
@@ -62,12 +50,12 @@ Proof.
   intros t Hk Hs. pose proof (visit_lit t Hk Hs) as V.
   unfold kind_in in Hk. apply andb_true_iff in Hk. destruct Hk as [Hk Hok].
   destruct t as [k s]. cbn [tk tx] in *.
-  destruct k; cbn in Hk; try discriminate; unfold visit_terminal in V; cbn [tk tx] in V.
+  destruct k; cbn in Hk; try discriminate; unfold PatternSyntax.visit_terminal in V; cbn [tk tx] in V.
   - destruct (py_int s); [|discriminate]. inversion V as [E]. exact I.
   - destruct (py_int s); [|discriminate]. inversion V as [E]. exact I.
   - destruct (py_float s); [|discriminate]. inversion V as [E]. exact I.
   - destruct (py_float s); [|discriminate]. inversion V as [E]. exact I.
-  - unfold mk_hex_from_tree in V. destruct (prefixed_body 104 s); [|discriminate]. destruct (_ && _); [|discriminate]. inversion V. exact I.
+  - rewrite mk_hex_rep in V. destruct (prefixed_body 104 s); [|discriminate]. destruct (hex_pairs _); [|discriminate]. inversion V. exact I.
   - unfold mk_binary_from_tree in V. destruct (prefixed_body 98 s); [|discriminate]. destruct (b64_groups _); [|discriminate]. inversion V. exact I.
   - destruct (_ && _); [|discriminate]. inversion V. exact I.
   - destruct (ustr_eqb s (u "true")); [inversion V; exact I|]. destruct (ustr_eqb s (u "false")); [inversion V; exact I|discriminate].
@@ -79,11 +67,40 @@ Qed.
 
 Definition lvl_pt (x : aexpr) : bool := level_eqb (level x) LPt.
 Definition lvl_pt_and (x : aexpr) : bool := level_eqb (level x) LPt || level_eqb (level x) LAnd.
-Definition first2ok (ops : list aexpr) : bool :=
-  match ops with x1 :: x2 :: _ => negb (is_nil (set_inter (a_rt x1) (a_rt x2))) | _ => true end.
+Definition rt_fold (isand : bool) (ops : list aexpr) : list ustring :=
+  match ops with x1 :: rest => fold_left (fun s x => rt_step isand s (a_rt x)) rest (a_rt x1) | [] => [] end.
+Definition rtok (ops : list aexpr) : bool :=
+  match ops with x1 :: rest => rt_ok (a_rt x1) (map a_rt rest) | [] => true end.
+
+Lemma a_rt_mk1 : forall b ops, ops <> [] -> a_rt (mk1 b ops) = rt_fold b ops.
+Proof. intros b [|x [|y r]] H; [congruence| |]; reflexivity. Qed.
+
+Lemma rt_fold_snoc : forall b ops x, ops <> [] -> rt_fold b (ops ++ [x]) = rt_step b (rt_fold b ops) (a_rt x).
+Proof.
+  intros b [|x1 rest] x H; [congruence|]. cbn [List.app rt_fold]. rewrite fold_left_app. reflexivity.
+Qed.
+
+Lemma rt_ok_snoc : forall l s t,
+  rt_ok s (l ++ [t]) = rt_ok s l && negb (is_nil (set_inter (fold_left set_inter l s) t)).
+Proof.
+  induction l as [|u l IH]; intros s t.
+  - cbn. rewrite andb_true_r. reflexivity.
+  - cbn [List.app rt_ok fold_left]. rewrite IH, andb_assoc. reflexivity.
+Qed.
+
+Lemma fold_rt_map : forall rest s,
+  fold_left (fun s x => rt_step true s (a_rt x)) rest s = fold_left set_inter (map a_rt rest) s.
+Proof. induction rest as [|x r IH]; intros s; [reflexivity|]. cbn [fold_left map]. apply IH. Qed.
+
+Lemma rtok_snoc : forall ops x, ops <> [] ->
+  rtok (ops ++ [x]) = rtok ops && negb (is_nil (set_inter (rt_fold true ops) (a_rt x))).
+Proof.
+  intros [|x1 rest] x H; [congruence|]. cbn [List.app rtok rt_fold]. rewrite map_app. cbn [map].
+  rewrite rt_ok_snoc, fold_rt_map. reflexivity.
+Qed.
 
 Lemma vexpr_mk1_and : forall ops, ops <> [] ->
-  forallb vexpr ops = true -> forallb lvl_pt ops = true -> first2ok ops = true -> vexpr (mk1 true ops) = true.
+  forallb vexpr ops = true -> forallb lvl_pt ops = true -> rtok ops = true -> vexpr (mk1 true ops) = true.
 Proof.
   intros [|x [|y r]] Hn Hv Hl Hf; [congruence| |].
   - cbn [mk1 forallb] in *. apply andb_true_iff in Hv. tauto.
@@ -116,25 +133,13 @@ Proof.
   - destruct b; reflexivity.
 Qed.
 
-Lemma a_rt_mk1_two : forall b x1 x2 r, a_rt (mk1 b (x1 :: x2 :: r)) = if b then set_inter (a_rt x1) (a_rt x2) else set_union (a_rt x1) (a_rt x2).
-Proof. reflexivity. Qed.
-
-Lemma yield_set_lits : forall es, forallb lit_print (yield_set es) = true -> forallb lit_print es = true.
-Proof.
-  induction es as [|x r IH]; intros H; [reflexivity|]. destruct r as [|y r'].
-  - exact H.
-  - change (yield_set (x :: y :: r')) with (x :: t_COMMA :: yield_set (y :: r')) in H.
-    cbn [forallb] in H |- *. apply andb_true_iff in H. destruct H as [Hx H]. apply andb_true_iff in H. destruct H as [_ H].
-    rewrite Hx. exact (IH H).
-Qed.
-
 Lemma set_lits_ok : forall es,
-  forallb (fun t => kind_in t primitive_kinds) es = true -> forallb lit_sem es = true -> forallb lit_print es = true ->
+  forallb (fun t => kind_in t primitive_kinds) es = true -> forallb lit_sem es = true ->
   forallb (fun c => const_ok c && const_canon c) (map sv_lit es) = true.
 Proof.
-  induction es as [|x r IH]; intros Hk Hs Hp; [reflexivity|].
-  cbn [forallb map] in *. apply andb_true_iff in Hk, Hs, Hp. destruct Hk as [Kx Kr]. destruct Hs as [Sx Sr]. destruct Hp as [Px Pr].
-  destruct (sv_lit_ok x Kx Sx Px) as [O C]. rewrite O, C, (IH Kr Sr Pr). reflexivity.
+  induction es as [|x r IH]; intros Hk Hs; [reflexivity|].
+  cbn [forallb map] in *. apply andb_true_iff in Hk, Hs. destruct Hk as [Kx Kr]. destruct Hs as [Sx Sr].
+  destruct (sv_lit_ok x Kx Sx) as [O C]. rewrite O, C, (IH Kr Sr). reflexivity.
 Qed.
 
 Lemma forallb_and_l : forall (A : Type) (f g : A -> bool) l, forallb (fun x => f x && g x) l = true -> forallb f l = true.
@@ -144,25 +149,25 @@ Proof.
 Qed.
 
 Definition R_pt (p : proptest) : Prop :=
-  wf_pt p = true -> sem_pt p = true -> forallb lit_print (yield_pt p) = true ->
+  wf_pt p = true -> sem_pt p = true ->
   aprint (sv_pt p) = true /\ vexpr (sv_pt p) = true /\ lvl_pt (sv_pt p) = true /\ a_rt (sv_pt p) = rt_pt p.
 Definition R_and (a : cmpand) : Prop :=
-  wf_and a = true -> sem_and a = true -> forallb lit_print (yield_and a) = true ->
+  wf_and a = true -> sem_and a = true ->
   forallb aprint (sv_and_ops a) = true /\ forallb vexpr (sv_and_ops a) = true /\ forallb lvl_pt (sv_and_ops a) = true /\
-  first2ok (sv_and_ops a) = true /\ a_rt (sv_and a) = rt_and a.
+  rtok (sv_and_ops a) = true /\ rt_fold true (sv_and_ops a) = rt_and a.
 Definition R_or (o : cmpor) : Prop :=
-  wf_or o = true -> sem_or o = true -> forallb lit_print (yield_or o) = true ->
+  wf_or o = true -> sem_or o = true ->
   forallb aprint (sv_or_ops o) = true /\ forallb vexpr (sv_or_ops o) = true /\ forallb lvl_pt_and (sv_or_ops o) = true /\
-  a_rt (sv_or o) = rt_or o.
+  rt_fold false (sv_or_ops o) = rt_or o.
 
 Lemma cmp_leaf_range : forall cls p nt l,
-  wf_path p = true -> path_sem p = true -> kind_in l primitive_kinds = true -> lit_sem l = true -> lit_print l = true ->
+  wf_path p = true -> path_sem p = true -> kind_in l primitive_kinds = true -> lit_sem l = true ->
   rhs_ok cls (sv_lit l) = true ->
   aprint (ECmp cls (sv_path_v p) (sv_lit l) nt) = true /\ vexpr (ECmp cls (sv_path_v p) (sv_lit l) nt) = true /\
   lvl_pt (ECmp cls (sv_path_v p) (sv_lit l) nt) = true /\ a_rt (ECmp cls (sv_path_v p) (sv_lit l) nt) = [tx (op_type p)].
 Proof.
-  intros cls p nt l Hp Sp Kl Sl Pl Hr. pose proof (sv_path_vpath p Hp Sp) as V. pose proof (vpath_ok _ V) as A.
-  destruct (sv_lit_ok l Kl Sl Pl) as [O C]. pose proof (sv_lit_not_list l) as NL.
+  intros cls p nt l Hp Sp Kl Sl Hr. pose proof (sv_path_vpath p Hp Sp) as V. pose proof (vpath_ok _ V) as A.
+  destruct (sv_lit_ok l Kl Sl) as [O C]. pose proof (sv_lit_not_list l) as NL.
   cbn [aprint vexpr]. rewrite A, V, Hr. cbn [andb].
   split; [reflexivity|]. split; [|split; reflexivity].
   unfold vrhs. destruct cls; destruct (sv_lit l); try contradiction; rewrite Hr, C; reflexivity.
@@ -172,54 +177,46 @@ Lemma range_cmp : (forall p, R_pt p) /\ (forall a, R_and a) /\ (forall o, R_or o
 Proof.
   apply cmp_mutind; unfold R_pt, R_and, R_or.
   - (* = *)
-    intros p nt op l Hw Hs Hy. cbn [wf_pt sem_pt yield_pt] in *.
+    intros p nt op l Hw Hs. cbn [wf_pt sem_pt] in *.
     apply andb_true_iff in Hw. destruct Hw as [Hw Hl]. apply andb_true_iff in Hw. destruct Hw as [Hp Hop].
     apply andb_true_iff in Hs. destruct Hs as [Sp Sl].
-    rewrite !forallb_app in Hy. apply andb_true_iff in Hy. destruct Hy as [_ Hy]. apply andb_true_iff in Hy. destruct Hy as [_ Hy].
-    cbn [forallb] in Hy. apply andb_true_iff in Hy. destruct Hy as [_ Hy]. rewrite andb_true_r in Hy.
-    destruct (sv_lit_ok l Hl Sl Hy) as [O C]. pose proof (sv_lit_not_list l) as NL.
+    destruct (sv_lit_ok l Hl Sl) as [O C]. pose proof (sv_lit_not_list l) as NL.
     cbn [sv_pt rt_pt]. apply cmp_leaf_range; try assumption.
     cbn [rhs_ok]. destruct (sv_lit l); try contradiction; exact O.
   - (* order *)
-    intros p nt op l Hw Hs Hy. cbn [wf_pt sem_pt yield_pt] in *.
+    intros p nt op l Hw Hs. cbn [wf_pt sem_pt] in *.
     apply andb_true_iff in Hw. destruct Hw as [Hw Hl]. apply andb_true_iff in Hw. destruct Hw as [Hp Hop].
     apply andb_true_iff in Hs. destruct Hs as [Sp Sl].
-    rewrite !forallb_app in Hy. apply andb_true_iff in Hy. destruct Hy as [_ Hy]. apply andb_true_iff in Hy. destruct Hy as [_ Hy].
-    cbn [forallb] in Hy. apply andb_true_iff in Hy. destruct Hy as [_ Hy]. rewrite andb_true_r in Hy.
     pose proof (orderable_primitive l Hl) as Hl'.
-    destruct (sv_lit_ok l Hl' Sl Hy) as [O C]. pose proof (sv_lit_kind l Hl' Sl) as K.
+    destruct (sv_lit_ok l Hl' Sl) as [O C]. pose proof (sv_lit_kind l Hl' Sl) as K.
     cbn [sv_pt rt_pt]. apply cmp_leaf_range; try assumption.
     assert (NB : not_bool (sv_lit l) = true).
     { unfold kind_in in Hl. apply andb_true_iff in Hl. destruct Hl as [Hk _].
       destruct (tk l); cbn in Hk; try discriminate; destruct (sv_lit l); try contradiction; reflexivity. }
     unfold order_cls. destruct (tk op); cbn [rhs_ok]; rewrite O, NB; reflexivity.
   - (* IN *)
-    intros p nt es Hw Hs Hy. cbn [wf_pt sem_pt yield_pt] in *.
+    intros p nt es Hw Hs. cbn [wf_pt sem_pt] in *.
     apply andb_true_iff in Hw. destruct Hw as [Hp Hes]. apply andb_true_iff in Hs. destruct Hs as [Sp Ses].
-    rewrite !forallb_app in Hy. apply andb_true_iff in Hy. destruct Hy as [_ Hy]. apply andb_true_iff in Hy. destruct Hy as [_ Hy].
-    apply andb_true_iff in Hy. destruct Hy as [_ Hy]. apply andb_true_iff in Hy. destruct Hy as [Hy _]. apply yield_set_lits in Hy.
-    pose proof (set_lits_ok es Hes Ses Hy) as L.
+    pose proof (set_lits_ok es Hes Ses) as L.
     pose proof (sv_path_vpath p Hp Sp) as V. pose proof (vpath_ok _ V) as A.
     cbn [sv_pt rt_pt aprint vexpr rhs_ok vrhs a_rt]. rewrite A, V, L, (forallb_and_l _ _ _ _ L). repeat split; reflexivity.
   - (* LIKE ... *)
-    intros o p nt s Hw Hs Hy. cbn [wf_pt sem_pt yield_pt] in *.
+    intros o p nt s Hw Hs. cbn [wf_pt sem_pt] in *.
     apply andb_true_iff in Hw. destruct Hw as [Hp Hk].
     assert (Hk' : kind_in s primitive_kinds = true).
     { apply (kind_in_weaken _ _ _ Hk). intros k. destruct k; cbn; intros E; try discriminate; reflexivity. }
     pose proof (string_lit_sem s Hk) as Sl.
-    assert (Pl : lit_print s = true).
-    { destruct (kind_single _ _ Hk) as [E _]. unfold lit_print. rewrite E. reflexivity. }
-    destruct (sv_lit_ok s Hk' Sl Pl) as [O C]. pose proof (sv_lit_kind s Hk' Sl) as K.
+    destruct (sv_lit_ok s Hk' Sl) as [O C]. pose proof (sv_lit_kind s Hk' Sl) as K.
     destruct (kind_single _ _ Hk) as [E _]. rewrite E in K.
     cbn [sv_pt rt_pt]. apply cmp_leaf_range; try assumption.
     destruct o; cbn [strop_cls rhs_ok]; rewrite O; destruct (sv_lit s); try contradiction; reflexivity.
   - (* parentheses *)
-    intros e IH Hw Hs Hy. cbn [wf_pt sem_pt yield_pt] in *.
-    rewrite !forallb_app in Hy. apply andb_true_iff in Hy. destruct Hy as [_ Hy]. apply andb_true_iff in Hy. destruct Hy as [Hy _].
-    destruct (IH Hw Hs Hy) as [I1 [I2 [I3 I4]]].
+    intros e IH Hw Hs. cbn [wf_pt sem_pt] in *.
+    destruct (IH Hw Hs) as [I1 [I2 [I3 I4]]].
     cbn [sv_pt rt_pt aprint vexpr a_rt]. fold (sv_or e).
     pose proof (sv_or_ops_nonnil e) as Nn.
-    split; [apply aprint_mk1; exact I1|]. split; [apply vexpr_mk1_or; assumption|]. split; [|exact I4].
+    split; [apply aprint_mk1; exact I1|]. split; [apply vexpr_mk1_or; assumption|].
+    split; [|unfold sv_or; rewrite (a_rt_mk1 false _ Nn); exact I4].
     unfold lvl_pt. cbn [level].
     assert (Cl : is_cmp_level (level (sv_or e)) = true).
     { apply level_cmp_mk1; [|exact Nn]. intros x Hx. pose proof (proj1 (forallb_forall _ _) I3 x Hx) as Lx.
@@ -227,45 +224,30 @@ Proof.
     rewrite Cl. reflexivity.
   - intros nt p Hw Hs. discriminate Hs.
   - (* single test *)
-    intros p IH Hw Hs Hy. cbn [wf_and sem_and yield_and] in *. destruct (IH Hw Hs Hy) as [I1 [I2 [I3 I4]]].
-    cbn [sv_and_ops forallb first2ok]. rewrite I1, I2, I3. unfold sv_and. cbn [sv_and_ops mk1 rt_and]. repeat split; try reflexivity. exact I4.
+    intros p IH Hw Hs. cbn [wf_and sem_and] in *. destruct (IH Hw Hs) as [I1 [I2 [I3 I4]]].
+    cbn [sv_and_ops forallb rtok rt_fold rt_ok map fold_left rt_and]. rewrite I1, I2, I3. repeat split; try reflexivity. exact I4.
   - (* l AND r *)
-    intros l IHl r IHr Hw Hs Hy. cbn [wf_and sem_and yield_and] in *.
+    intros l IHl r IHr Hw Hs. cbn [wf_and sem_and] in *.
     apply andb_true_iff in Hw. destruct Hw as [Hwl Hwr].
     apply andb_true_iff in Hs. destruct Hs as [Hs Hrt]. apply andb_true_iff in Hs. destruct Hs as [Hsl Hsr].
-    rewrite !forallb_app in Hy. apply andb_true_iff in Hy. destruct Hy as [Hyl Hy]. apply andb_true_iff in Hy. destruct Hy as [_ Hyr].
-    destruct (IHl Hwl Hsl Hyl) as [L1 [L2 [L3 [L4 L5]]]]. destruct (IHr Hwr Hsr Hyr) as [R1 [R2 [R3 R4]]].
-    cbn [sv_and_ops]. rewrite !forallb_app. cbn [forallb]. rewrite L1, L2, L3, R1, R2, R3. cbn [andb].
-    repeat split; try reflexivity.
-    + destruct l as [p|l' r'].
-      * cbn [sv_and_ops List.app first2ok]. unfold sv_and in L5. cbn [sv_and_ops mk1 rt_and] in L5. rewrite L5, R4. exact Hrt.
-      * destruct (sv_and_ops_head l') as [p1 [xs E]]. cbn [sv_and_ops] in L4 |- *. rewrite E in L4 |- *.
-        destruct xs as [|x2 xs']; cbn [List.app first2ok] in L4 |- *; exact L4.
-    + rewrite sv_and_CAnd. destruct l as [p|l' r'].
-      * cbn [sv_and_ops List.app a_rt rt_and]. unfold sv_and in L5. cbn [sv_and_ops mk1 rt_and] in L5. rewrite L5, R4. reflexivity.
-      * rewrite sv_and_CAnd in L5. change (rt_and (CAnd (CAnd l' r') r)) with (rt_and (CAnd l' r')). rewrite <- L5.
-        destruct (sv_and_ops_head l') as [p1 [xs E]]. cbn [sv_and_ops]. rewrite E.
-        destruct xs as [|x2 xs']; reflexivity.
+    destruct (IHl Hwl Hsl) as [L1 [L2 [L3 [L4 L5]]]]. destruct (IHr Hwr Hsr) as [R1 [R2 [R3 R4]]].
+    pose proof (sv_and_ops_nonnil l) as Nn.
+    cbn [sv_and_ops rt_and]. rewrite !forallb_app. cbn [forallb]. rewrite L1, L2, L3, R1, R2, R3. cbn [andb].
+    rewrite (rtok_snoc _ _ Nn), (rt_fold_snoc true _ _ Nn), L4, L5, R4. cbn [rt_step andb].
+    repeat split; try reflexivity. exact Hrt.
   - (* single AND chain *)
-    intros a IH Hw Hs Hy. cbn [wf_or sem_or yield_or] in *. destruct (IH Hw Hs Hy) as [I1 [I2 [I3 [I4 I5]]]].
+    intros a IH Hw Hs. cbn [wf_or sem_or] in *. destruct (IH Hw Hs) as [I1 [I2 [I3 [I4 I5]]]].
     pose proof (sv_and_ops_nonnil a) as Nn.
-    cbn [sv_or_ops forallb]. rewrite (aprint_mk1 true _ I1), (vexpr_mk1_and _ Nn I2 I3 I4), (level_mk1_and _ I3 Nn).
-    unfold sv_or. cbn [sv_or_ops mk1 rt_or]. repeat split; try reflexivity. exact I5.
+    cbn [sv_or_ops forallb rt_fold fold_left rt_or]. rewrite (aprint_mk1 true _ I1), (vexpr_mk1_and _ Nn I2 I3 I4), (level_mk1_and _ I3 Nn).
+    rewrite (a_rt_mk1 true _ Nn), I5. repeat split; reflexivity.
   - (* l OR r *)
-    intros l IHl r IHr Hw Hs Hy. cbn [wf_or sem_or yield_or] in *.
+    intros l IHl r IHr Hw Hs. cbn [wf_or sem_or] in *.
     apply andb_true_iff in Hw. destruct Hw as [Hwl Hwr]. apply andb_true_iff in Hs. destruct Hs as [Hsl Hsr].
-    rewrite !forallb_app in Hy. apply andb_true_iff in Hy. destruct Hy as [Hyl Hy]. apply andb_true_iff in Hy. destruct Hy as [_ Hyr].
-    destruct (IHl Hwl Hsl Hyl) as [L1 [L2 [L3 L5]]]. destruct (IHr Hwr Hsr Hyr) as [R1 [R2 [R3 [R4 R5]]]].
-    pose proof (sv_and_ops_nonnil r) as Nn.
-    cbn [sv_or_ops]. rewrite !forallb_app. cbn [forallb].
+    destruct (IHl Hwl Hsl) as [L1 [L2 [L3 L5]]]. destruct (IHr Hwr Hsr) as [R1 [R2 [R3 [R4 R5]]]].
+    pose proof (sv_and_ops_nonnil r) as Nn. pose proof (sv_or_ops_nonnil l) as Nl.
+    cbn [sv_or_ops rt_or]. rewrite !forallb_app. cbn [forallb].
     rewrite L1, L2, L3, (aprint_mk1 true _ R1), (vexpr_mk1_and _ Nn R2 R3 R4), (level_mk1_and _ R3 Nn). cbn [andb].
-    repeat split; try reflexivity.
-    rewrite sv_or_COr. destruct l as [a|l' r'].
-    + cbn [sv_or_ops List.app a_rt rt_or]. unfold sv_or in L5. cbn [sv_or_ops mk1 rt_or] in L5. fold (sv_and a) in L5 |- *. fold (sv_and r).
-      rewrite L5, R5. reflexivity.
-    + rewrite sv_or_COr in L5. change (rt_or (COr (COr l' r') r)) with (rt_or (COr l' r')). rewrite <- L5.
-      destruct (sv_or_ops_head l') as [a1 [xs E]]. cbn [sv_or_ops]. rewrite E.
-      destruct xs as [|x2 xs']; reflexivity.
+    rewrite (rt_fold_snoc false _ _ Nl), L5, (a_rt_mk1 true _ Nn), R5. repeat split; reflexivity.
 Qed.
 
 (* ---- qualifiers ---- *)
@@ -285,7 +267,7 @@ Lemma sv_lit_intpos_nonneg : forall t, kind_in t [KIntPos] = true -> nonneg_int 
 Proof.
   intros t H. destruct (kind_single _ _ H) as [Hk Hok]. destruct t as [k s]. cbn [tk] in Hk. subst k.
   unfold token_ok in Hok. cbn [tk tx] in Hok. destruct (py_int_intpos s Hok) as [z Hz].
-  unfold sv_lit, visit_terminal. cbn [tk tx]. rewrite Hz. cbn [nonneg_int]. apply Z.leb_le. apply (py_int_intpos_nonneg s z Hok Hz).
+  unfold sv_lit, PatternSyntax.visit_terminal. cbn [tk tx]. rewrite Hz. cbn [nonneg_int]. apply Z.leb_le. apply (py_int_intpos_nonneg s z Hok Hz).
 Qed.
 
 Lemma py_float_floatpos_sign : forall s f, floatpos_ok s = true -> py_float s = Some f -> f_neg f = false.
@@ -298,24 +280,20 @@ Proof.
     unfold py_float_body in P. destruct (split_at 46 (c :: r)) as [[a b]|]; [|discriminate]. destruct (_ && _); [|discriminate]. inversion P. reflexivity.
 Qed.
 
-Lemma qual_range : forall q, wf_qual q = true -> sem_qual q = true -> forallb lit_print (yield_qual q) = true ->
-  aqual_ok (sv_qual q) = true.
+Lemma qual_range : forall q, wf_qual q = true -> sem_qual q = true -> aqual_ok (sv_qual q) = true.
 Proof.
-  intros [a b|n|n] Hw Hs Hy; cbn [wf_qual sem_qual yield_qual sv_qual aqual_ok forallb] in *.
+  intros [a b|n|n] Hw Hs; cbn [wf_qual sem_qual sv_qual aqual_ok] in *.
   - apply andb_true_iff in Hw, Hs. destruct Hw as [Ha Hb]. destruct Hs as [Sa Sb].
-    assert (Pa : lit_print a = true) by (destruct (kind_single _ _ Ha) as [E _]; unfold lit_print; rewrite E; reflexivity).
-    assert (Pb : lit_print b = true) by (destruct (kind_single _ _ Hb) as [E _]; unfold lit_print; rewrite E; reflexivity).
-    destruct (sv_lit_ok a (ts_primitive a Ha) Sa Pa) as [Oa _]. destruct (sv_lit_ok b (ts_primitive b Hb) Sb Pb) as [Ob _].
+    destruct (sv_lit_ok a (ts_primitive a Ha) Sa) as [Oa _]. destruct (sv_lit_ok b (ts_primitive b Hb) Sb) as [Ob _].
     destruct (sv_lit_ts a Ha Sa) as [va Ea]. destruct (sv_lit_ts b Hb Sb) as [vb Eb].
     rewrite Oa, Ob, Ea, Eb. reflexivity.
-  - apply andb_true_iff in Hy. destruct Hy as [_ Hy]. apply andb_true_iff in Hy. destruct Hy as [Pn _].
-    unfold kind_in in Hw. apply andb_true_iff in Hw. destruct Hw as [Hk Hok].
+  - unfold kind_in in Hw. apply andb_true_iff in Hw. destruct Hw as [Hk Hok].
     destruct n as [k s]. cbn [tk] in Hk. destruct k; cbn in Hk; try discriminate.
     + rewrite (sv_lit_intpos_nonneg (Tok KIntPos s)); [reflexivity|]. apply kind_in_make; [reflexivity|exact Hok].
     + assert (Kp : kind_in (Tok KFloatPos s) primitive_kinds = true) by (apply kind_in_make; [reflexivity|exact Hok]).
-      destruct (sv_lit_ok (Tok KFloatPos s) Kp eq_refl Pn) as [O _].
+      destruct (sv_lit_ok (Tok KFloatPos s) Kp eq_refl) as [O _].
       unfold token_ok in Hok. cbn [tk tx] in Hok. destruct (py_float_floatpos s Hok) as [f Hf].
-      assert (E : sv_lit (Tok KFloatPos s) = CFloat f) by (unfold sv_lit, visit_terminal; cbn [tk tx]; rewrite Hf; reflexivity).
+      assert (E : sv_lit (Tok KFloatPos s) = CFloat f) by (unfold sv_lit, PatternSyntax.visit_terminal; cbn [tk tx]; rewrite Hf; reflexivity).
       rewrite E in O |- *. cbn [pos_float nonneg_int orb]. rewrite O, (py_float_floatpos_sign s f Hok Hf). reflexivity.
   - apply sv_lit_intpos_nonneg. exact Hw.
 Qed.
@@ -325,61 +303,55 @@ Qed.
 Definition is_obs_level (l : alevel) : bool := negb (is_cmp_level l).
 
 Lemma range_obs :
-  (forall o, wf_obs o = true -> sem_obs o = true -> forallb lit_print (yield_obs o) = true ->
+  (forall o, wf_obs o = true -> sem_obs o = true ->
      aprint (sv_obs o) = true /\ vexpr (sv_obs o) = true /\ level (sv_obs o) = LObs) /\
-  (forall a, wf_oand a = true -> sem_oand a = true -> forallb lit_print (yield_oand a) = true ->
+  (forall a, wf_oand a = true -> sem_oand a = true ->
      aprint (sv_oand a) = true /\ vexpr (sv_oand a) = true /\ left_level_ok OpAnd (level (sv_oand a)) = true) /\
-  (forall a, wf_oor a = true -> sem_oor a = true -> forallb lit_print (yield_oor a) = true ->
+  (forall a, wf_oor a = true -> sem_oor a = true ->
      aprint (sv_oor a) = true /\ vexpr (sv_oor a) = true /\ left_level_ok OpOr (level (sv_oor a)) = true) /\
-  (forall a, wf_fb a = true -> sem_fb a = true -> forallb lit_print (yield_fb a) = true ->
+  (forall a, wf_fb a = true -> sem_fb a = true ->
      aprint (sv_fb a) = true /\ vexpr (sv_fb a) = true /\ left_level_ok OpFb (level (sv_fb a)) = true).
 Proof.
   apply obs_mutind.
-  - intros e Hw Hs Hy. cbn [wf_obs sem_obs yield_obs] in *.
-    rewrite !forallb_app in Hy. apply andb_true_iff in Hy. destruct Hy as [_ Hy]. apply andb_true_iff in Hy. destruct Hy as [Hy _].
-    destruct (proj2 (proj2 range_cmp) e Hw Hs Hy) as [I1 [I2 [I3 _]]]. pose proof (sv_or_ops_nonnil e) as Nn.
+  - intros e Hw Hs. cbn [wf_obs sem_obs] in *.
+    destruct (proj2 (proj2 range_cmp) e Hw Hs) as [I1 [I2 [I3 _]]]. pose proof (sv_or_ops_nonnil e) as Nn.
     cbn [sv_obs aprint vexpr level]. unfold sv_or.
     rewrite (aprint_mk1 false _ I1), (vexpr_mk1_or _ Nn I2 I3).
     assert (Cl : is_cmp_level (level (mk1 false (sv_or_ops e))) = true).
     { apply level_cmp_mk1; [|exact Nn]. intros x Hx. pose proof (proj1 (forallb_forall _ _) I3 x Hx) as Lx.
       unfold lvl_pt_and in Lx. apply orb_true_iff in Lx. destruct Lx as [Lx|Lx]; apply level_eqb_eq in Lx; rewrite Lx; reflexivity. }
     rewrite Cl. repeat split; reflexivity.
-  - intros e IH Hw Hs Hy. cbn [wf_obs sem_obs yield_obs] in *.
-    rewrite !forallb_app in Hy. apply andb_true_iff in Hy. destruct Hy as [_ Hy]. apply andb_true_iff in Hy. destruct Hy as [Hy _].
-    destruct (IH Hw Hs Hy) as [I1 [I2 I3]]. cbn [sv_obs aprint vexpr level]. rewrite I1, I2.
+  - intros e IH Hw Hs. cbn [wf_obs sem_obs] in *.
+    destruct (IH Hw Hs) as [I1 [I2 I3]]. cbn [sv_obs aprint vexpr level]. rewrite I1, I2.
     repeat split; try reflexivity. destruct (level (sv_fb e)); try discriminate I3; reflexivity.
-  - intros o IH q Hw Hs Hy. cbn [wf_obs sem_obs yield_obs] in *.
+  - intros o IH q Hw Hs. cbn [wf_obs sem_obs] in *.
     apply andb_true_iff in Hw, Hs. destruct Hw as [Hwo Hwq]. destruct Hs as [Hso Hsq].
-    rewrite forallb_app in Hy. apply andb_true_iff in Hy. destruct Hy as [Hyo Hyq].
-    destruct (IH Hwo Hso Hyo) as [I1 [I2 I3]]. cbn [sv_obs aprint vexpr level].
-    rewrite I1, I2, I3, (qual_range q Hwq Hsq Hyq). repeat split; reflexivity.
-  - intros o IH Hw Hs Hy. cbn [wf_oand sem_oand yield_oand] in *. destruct (IH Hw Hs Hy) as [I1 [I2 I3]].
+    destruct (IH Hwo Hso) as [I1 [I2 I3]]. cbn [sv_obs aprint vexpr level].
+    rewrite I1, I2, I3, (qual_range q Hwq Hsq). repeat split; reflexivity.
+  - intros o IH Hw Hs. cbn [wf_oand sem_oand] in *. destruct (IH Hw Hs) as [I1 [I2 I3]].
     cbn [sv_oand]. rewrite I1, I2, I3. repeat split; reflexivity.
-  - intros l IHl r IHr Hw Hs Hy. cbn [wf_oand sem_oand yield_oand] in *.
+  - intros l IHl r IHr Hw Hs. cbn [wf_oand sem_oand] in *.
     apply andb_true_iff in Hw, Hs. destruct Hw as [Hwl Hwr]. destruct Hs as [Hsl Hsr].
-    rewrite !forallb_app in Hy. apply andb_true_iff in Hy. destruct Hy as [Hyl Hy]. apply andb_true_iff in Hy. destruct Hy as [_ Hyr].
-    destruct (IHl Hwl Hsl Hyl) as [L1 [L2 L3]]. destruct (IHr Hwr Hsr Hyr) as [R1 [R2 R3]].
+    destruct (IHl Hwl Hsl) as [L1 [L2 L3]]. destruct (IHr Hwr Hsr) as [R1 [R2 R3]].
     cbn [sv_oand aprint vexpr level forallb]. rewrite L1, L2, L3, R1, R2, R3. repeat split; reflexivity.
-  - intros a IH Hw Hs Hy. cbn [wf_oor sem_oor yield_oor] in *. destruct (IH Hw Hs Hy) as [I1 [I2 I3]].
+  - intros a IH Hw Hs. cbn [wf_oor sem_oor] in *. destruct (IH Hw Hs) as [I1 [I2 I3]].
     cbn [sv_oor]. rewrite I1, I2. repeat split; try reflexivity. destruct (level (sv_oand a)); try discriminate I3; reflexivity.
-  - intros l IHl r IHr Hw Hs Hy. cbn [wf_oor sem_oor yield_oor] in *.
+  - intros l IHl r IHr Hw Hs. cbn [wf_oor sem_oor] in *.
     apply andb_true_iff in Hw, Hs. destruct Hw as [Hwl Hwr]. destruct Hs as [Hsl Hsr].
-    rewrite !forallb_app in Hy. apply andb_true_iff in Hy. destruct Hy as [Hyl Hy]. apply andb_true_iff in Hy. destruct Hy as [_ Hyr].
-    destruct (IHl Hwl Hsl Hyl) as [L1 [L2 L3]]. destruct (IHr Hwr Hsr Hyr) as [R1 [R2 R3]].
+    destruct (IHl Hwl Hsl) as [L1 [L2 L3]]. destruct (IHr Hwr Hsr) as [R1 [R2 R3]].
     cbn [sv_oor aprint vexpr level forallb]. rewrite L1, L2, L3, R1, R2. cbn [andb].
     repeat split; try reflexivity. destruct (level (sv_oand r)); try discriminate R3; reflexivity.
-  - intros a IH Hw Hs Hy. cbn [wf_fb sem_fb yield_fb] in *. destruct (IH Hw Hs Hy) as [I1 [I2 I3]].
+  - intros a IH Hw Hs. cbn [wf_fb sem_fb] in *. destruct (IH Hw Hs) as [I1 [I2 I3]].
     cbn [sv_fb]. rewrite I1, I2. repeat split; try reflexivity. destruct (level (sv_oor a)); try discriminate I3; reflexivity.
-  - intros l IHl r IHr Hw Hs Hy. cbn [wf_fb sem_fb yield_fb] in *.
+  - intros l IHl r IHr Hw Hs. cbn [wf_fb sem_fb] in *.
     apply andb_true_iff in Hw, Hs. destruct Hw as [Hwl Hwr]. destruct Hs as [Hsl Hsr].
-    rewrite !forallb_app in Hy. apply andb_true_iff in Hy. destruct Hy as [Hyl Hy]. apply andb_true_iff in Hy. destruct Hy as [_ Hyr].
-    destruct (IHl Hwl Hsl Hyl) as [L1 [L2 L3]]. destruct (IHr Hwr Hsr Hyr) as [R1 [R2 R3]].
+    destruct (IHl Hwl Hsl) as [L1 [L2 L3]]. destruct (IHr Hwr Hsr) as [R1 [R2 R3]].
     cbn [sv_fb aprint vexpr level forallb]. rewrite L1, L2, L3, R1, R2. cbn [andb].
     repeat split; try reflexivity. destruct (level (sv_oor r)); try discriminate R3; reflexivity.
 Qed.
 
-Theorem visitor_range : forall c : pattern, wf c = true -> sem c = true -> printable c = true ->
+Theorem visitor_range : forall c : pattern, wf c = true -> sem c = true ->
   aprint (sv_fb c) = true /\ vexpr (sv_fb c) = true.
 Proof.
-  intros c Hw Hs Hp. destruct (proj2 (proj2 (proj2 range_obs)) c Hw Hs Hp) as [A [V _]]. split; assumption.
+  intros c Hw Hs. destruct (proj2 (proj2 (proj2 range_obs)) c Hw Hs) as [A [V _]]. split; assumption.
 Qed.
